@@ -150,7 +150,10 @@ func main() {
 	levelSizes := []int{1}
 	exhaustive := true
 	leafEdits := 0
-	crashSplits, crashesNotReproduced := 0, 0
+	crashFollowUps, crashesNotReproduced := 0, 0
+	confirmJob := map[int]bool{}  // jobs that execute again, alone, the edit during which a worker died
+	replayDeath := map[int]bool{} // jobs whose worker died before the node's state was reached
+	jobSeq := 1
 	nLeaf := 0
 	for _, o := range ops {
 		if o.Leaf {
@@ -202,7 +205,8 @@ func main() {
 		for _, n := range frontier {
 			for lo := 0; lo < len(ops); lo += per {
 				hi := min(lo+per, len(ops))
-				jobs = append(jobs, &Job{Node: n.id, Prefix: n.prefix, PrefKeys: n.prefKeys, StartKey: startKey, Model: n.model, Taint: n.taint,
+				jobSeq++
+				jobs = append(jobs, &Job{ID: jobSeq - 1, Node: n.id, Prefix: n.prefix, PrefKeys: n.prefKeys, StartKey: startKey, Model: n.model, Taint: n.taint,
 					Ops: ops[lo:hi], OpIdx: allIdx[lo:hi]})
 				jobNode = append(jobNode, n)
 			}
@@ -222,34 +226,93 @@ func main() {
 			}
 			results = append(results, pool.Run(jobs[lo:hi])...)
 		}
-		// A death of the worker process is attributed to ONE edit: the job is cut in halves that are executed again
-		// (fresh process, fresh Core, same history) until the dying part is a single edit; the other edits of the job
-		// keep their verdicts. A death that does not happen again is counted, not judged.
+		// A death of the worker process is attributed to ONE edit. The worker leaves a progress file (the results of
+		// the edits it completed); the edit that was in progress is executed again alone (fresh process, fresh Core, same
+		// history): if the process dies again the death is that edit's, otherwise it is counted, not judged. The
+		// completed edits keep their verdicts, the remaining ones are executed as a new job.
 		nJobs, nDone := len(jobs), len(results)
 		{
 			var rj []any
 			var rn []*node
 			var rr []c12lib.Result
-			var resolve func(job *Job, n *node, res c12lib.Result)
-			resolve = func(job *Job, n *node, res c12lib.Result) {
-				if res.Crash == "" || len(job.Ops) <= 1 {
-					rj, rn, rr = append(rj, job), append(rn, n), append(rr, res)
-					return
-				}
-				mid := len(job.Ops) / 2
-				a, b := *job, *job
-				a.Ops, a.OpIdx = job.Ops[:mid], job.OpIdx[:mid]
-				b.Ops, b.OpIdx = job.Ops[mid:], job.OpIdx[mid:]
-				crashSplits++
-				rs := pool.Run([]any{&a, &b})
-				if rs[0].Crash == "" && rs[1].Crash == "" {
-					crashesNotReproduced++
-				}
-				resolve(&a, n, rs[0])
-				resolve(&b, n, rs[1])
+			type crashed struct {
+				job *Job
+				n   *node
+				res c12lib.Result
 			}
+			var cur []crashed
 			for i := range results {
-				resolve(jobs[i].(*Job), jobNode[i], results[i])
+				if results[i].Crash != "" {
+					cur = append(cur, crashed{jobs[i].(*Job), jobNode[i], results[i]})
+				} else {
+					rj, rn, rr = append(rj, jobs[i]), append(rn, jobNode[i]), append(rr, results[i])
+				}
+			}
+			for len(cur) > 0 {
+				var follow []any
+				var followNode []*node
+				for _, c := range cur {
+					if confirmJob[c.job.ID] {
+						rj, rn, rr = append(rj, c.job), append(rn, c.n), append(rr, c.res)
+						continue
+					}
+					part, ok := readProgress(tmp, c.job.ID)
+					if !ok {
+						// died before the node's state was reached: nothing to attribute to an edit
+						replayDeath[c.job.ID] = true
+						rj, rn, rr = append(rj, c.job), append(rn, c.n), append(rr, c.res)
+						continue
+					}
+					done := len(part.Results)
+					if done >= len(c.job.Ops) {
+						// died after the last edit was judged: that edit is the one executed again
+						done = len(c.job.Ops) - 1
+						part.Results = part.Results[:done]
+						var vs []Viol
+						for _, v := range part.Viols {
+							if v.OpIdx != c.job.OpIdx[done] {
+								vs = append(vs, v)
+							}
+						}
+						part.Viols = vs
+					}
+					if done > 0 {
+						a := *c.job
+						a.Ops, a.OpIdx = c.job.Ops[:done], c.job.OpIdx[:done]
+						raw, _ := json.Marshal(part)
+						rj, rn, rr = append(rj, &a), append(rn, c.n), append(rr, c12lib.Result{Raw: raw})
+					}
+					one := *c.job
+					one.ID = jobSeq
+					jobSeq++
+					one.Ops, one.OpIdx = c.job.Ops[done:done+1], c.job.OpIdx[done:done+1]
+					confirmJob[one.ID] = true
+					follow, followNode = append(follow, &one), append(followNode, c.n)
+					if done+1 < len(c.job.Ops) {
+						rest := *c.job
+						rest.ID = jobSeq
+						jobSeq++
+						rest.Ops, rest.OpIdx = c.job.Ops[done+1:], c.job.OpIdx[done+1:]
+						follow, followNode = append(follow, &rest), append(followNode, c.n)
+					}
+				}
+				cur = nil
+				if len(follow) == 0 {
+					break
+				}
+				crashFollowUps += len(follow)
+				rs := pool.Run(follow)
+				for i := range rs {
+					job := follow[i].(*Job)
+					if rs[i].Crash != "" {
+						cur = append(cur, crashed{job, followNode[i], rs[i]})
+						continue
+					}
+					if confirmJob[job.ID] {
+						crashesNotReproduced++
+					}
+					rj, rn, rr = append(rj, job), append(rn, followNode[i]), append(rr, rs[i])
+				}
 			}
 			jobs, jobNode, results = rj, rn, rr
 		}
@@ -258,17 +321,19 @@ func main() {
 			n := jobNode[i]
 			if res.Crash != "" {
 				job := jobs[i].(*Job)
-				what := fmt.Sprintf("the process died while expanding history %v", n.prefix)
+				what := fmt.Sprintf("the process died while replaying history %v", n.prefix)
 				rep := map[string]any{"base": "api only, paths: {p1: {maxReaders: 1}}", "history": n.prefix}
-				if len(job.Ops) == 1 {
+				if !replayDeath[job.ID] {
 					what = fmt.Sprintf("the server process died: history %v then %v", n.prefix, job.Ops[0])
 					rep["edit"] = job.Ops[0]
 					rep["how"] = "start mediamtx with the base configuration, send the history then the edit to the Control API"
 				}
 				r.Violation(crashKey(res.Crash), what+": "+crashText(res.Crash), rep)
-				transitions++
-				r.Eval(1)
-				outcomes[job.Ops[0].Kind+"/process-death"]++
+				if !replayDeath[job.ID] {
+					transitions++
+					r.Eval(1)
+					outcomes[job.Ops[0].Kind+"/process-death"]++
+				}
 				continue
 			}
 			var jr JobResult
@@ -386,7 +451,7 @@ func main() {
 	sort.Strings(ocs)
 	r.Set("outcomes", ocs)
 	r.Set("worker_crashes", pool.Crashed.Load())
-	r.Set("jobs_cut_in_two_after_a_worker_death", crashSplits)
+	r.Set("jobs_executed_to_attribute_worker_deaths", crashFollowUps)
 	r.Set("worker_deaths_not_reproduced", crashesNotReproduced)
 	r.Set("jobs_reexecuted_after_an_environment_error", harnessRetries)
 	r.Note("informational, not a verdict: %d of %d reads issued right after a 200 answer (before the reload was known to be complete) "+
